@@ -66,6 +66,42 @@ def corpus_scripts(rng, n):
     return scripts
 
 
+def _varint(b, p):
+    """QUIC-style variable-length integer at b[p]: (value, size) or None."""
+    if p >= len(b):
+        return None
+    k = b[p] >> 6
+    n = 1 << k
+    if k == 3 or p + n > len(b):
+        return None
+    v = b[p] & 0x3f
+    for i in range(1, n):
+        v = (v << 8) | b[p + i]
+    return v, n
+
+
+def pending_commit_candidates(snap):
+    """Snapshot = ... PendingCommitSnapshot SignatureSecretKey; variant 2 of PendingCommitSnapshot is
+    `2 varint(len) bytes`.  Find the signer at the end, then the start of the variant by scanning."""
+    out = []
+    for slen in (32, 48, 57, 64, 66, 114):
+        hdr = 1 if slen < 64 else 2
+        send = len(snap) - slen - hdr
+        if send <= 0:
+            continue
+        v = _varint(snap, send)
+        if not v or v != (slen, hdr):
+            continue
+        for p in range(send - 2, max(0, send - 200000), -1):
+            if snap[p] != 2:
+                continue
+            v = _varint(snap, p + 1)
+            if v and p + 1 + v[1] + v[0] == send and v[0] > 100:
+                out.append(bytes(snap[p + 1 + v[1]:send]))
+                break
+    return out[:1]
+
+
 def inner_items(typ, b):
     """A few embedded values that can be cut out of a valid message without decoding it fully."""
     return []
@@ -198,6 +234,12 @@ def main(run, args):
                 hist_errors += 1
             if "dump" in r:
                 valid.append((r["type"], bytes.fromhex(r["hex"]), r["dump"]))
+    # the pending commit inside a snapshot is stored as an opaque byte string: cut it out, so that its own codec
+    # (PendingCommit -> CommitMessageDescription -> ProposalInfo / ProposalSource, hand-written) is exercised
+    for t, b, name in list(valid):
+        if t == "Snapshot":
+            for inner in pending_commit_candidates(b):
+                valid.append(("PendingCommit", inner, name + ".pending"))
     seen = set()
     uniq = []
     for t, b, name in valid:
